@@ -3,6 +3,7 @@ import Goyang.Spec.Tree
 Helper lemmas for C04 (Props/C04.lean): tree predicates along the resolver pipeline.
 -/
 set_option linter.unusedVariables false
+set_option linter.unusedSimpArgs false
 namespace Goyang.Lemmas.Tree
 open Goyang.Model Goyang.Spec.Tree
 
@@ -3885,5 +3886,419 @@ theorem getAt_updateAt (f : Entry → Entry) (e : Entry) (hn : (f e).name = e.na
       have huy : U y := ((U_mk _ _ _ _).1 hu).2.2.2 y (by simp)
       have := ih y huy hp.tail hgy
       exact ⟨by simpa [Entry.getAt, Entry.out] using this.1, rfl⟩
+
+/-! ### the deviation stage -/
+
+/-- The invariant of a module tree during the deviation stage of a clean `Process`. -/
+structure DP (tp : Bool) (t : Entry) : Prop where
+  ne : NoErrors t
+  wf : everyNode (wfqB tp) t = true
+  u : U t
+  kind : t.d.kind = .directory
+  cc : ChoiceCases t
+
+theorem choiceCases_implicitIO (parent : Entry) (b : Bool) : ChoiceCases (implicitIO parent b) := by
+  unfold implicitIO; rw [choiceCases_mk]; simp
+
+theorem find_inv2_some (P : Entry → Prop)
+    (hw : ∀ parts root cur, P root → (∀ p, cur = some p → PathOK p) →
+      P (walkParts parts root cur).2 ∧ ∀ p, (walkParts parts root cur).1 = some p → PathOK p)
+    (reg : Registry) (f : Forest) (start : Loc) (ctx : Nat) (name : String) (hf : ForestAll P f)
+    (hs : PathOK start.2) :
+    ((find reg f start ctx name).1 ≠ none → ForestAll P (find reg f start ctx name).2) ∧
+      ∀ t path, (find reg f start ctx name).1 = some (t, path) → PathOK path := by
+  unfold find
+  dsimp only
+  repeat' split
+  all_goals first
+    | exact ⟨fun _ => hf, fun t path h => absurd h (by simp)⟩
+    | exact ⟨fun h => absurd rfl h, fun t path h => absurd h (by simp)⟩
+    | (rename_i heq
+       have hroot := forestAll_tree? _ _ _ hf heq
+       have hside : ∀ (c : Path), (c = [] ∨ c = start.2) → ∀ p, some c = some p → PathOK p := by
+         intro c hc p hp; cases hp; rcases hc with rfl | rfl
+         · exact pathOK_nil
+         · exact hs
+       refine ⟨fun _ => forestAll_setTree _ _ _ hf (hw _ _ _ hroot (hside _ (by first | exact Or.inl rfl | exact Or.inr rfl))).1, ?_⟩
+       intro t path h
+       simp only [Option.map_eq_some_iff, Prod.mk.injEq] at h
+       obtain ⟨a, ha, _, rfl⟩ := h
+       exact (hw _ _ _ hroot (hside _ (by first | exact Or.inl rfl | exact Or.inr rfl))).2 a ha)
+
+section DPLemmas
+variable {env : Env} {tp : Bool} (hq : LocalOK env (wfqB tp))
+include hq
+
+theorem dp_setImplicitIn (root : Entry) (p : Path) (e : Entry) (h : DP tp root) (hp : PathOK p)
+    (hg : root.getAt p = some e) (hi : e.inp = []) : DP tp (root.updateAt p setImplicitIn) := by
+  have hne : NoErrors (root.updateAt p setImplicitIn) :=
+    everyNode_updateAt_own _ ownOnly_noErrorsHere _ noErrors_setImplicitIn p root h.ne
+  have ht := tinv_setImplicitIn hq root p e ⟨h.u, fun _ => h.wf⟩ hp hg hi
+  refine ⟨hne, ht.2 hne, ht.1, (updateAt_kind _ (fun x => by cases x; rfl) p root).trans h.kind, ?_⟩
+  refine everyNode_updateAt choiceCasesHere hdrLocal_choiceCasesHere setImplicitIn e ?_ (by cases e; rfl) p root h.u hp hg h.cc
+  intro he
+  cases e with | mk d c i o =>
+  change ChoiceCases _ at he
+  change ChoiceCases _
+  simp only [setImplicitIn]
+  rw [choiceCases_mk] at he ⊢
+  refine ⟨he.1, he.2.1, ?_, he.2.2.2⟩
+  intro x hx; simp only [List.mem_singleton] at hx; subst hx; exact choiceCases_implicitIO _ _
+
+theorem dp_setImplicitOut (root : Entry) (p : Path) (e : Entry) (h : DP tp root) (hp : PathOK p)
+    (hg : root.getAt p = some e) (ho : e.out = []) : DP tp (root.updateAt p setImplicitOut) := by
+  have hne : NoErrors (root.updateAt p setImplicitOut) :=
+    everyNode_updateAt_own _ ownOnly_noErrorsHere _ noErrors_setImplicitOut p root h.ne
+  have ht := tinv_setImplicitOut hq root p e ⟨h.u, fun _ => h.wf⟩ hp hg ho
+  refine ⟨hne, ht.2 hne, ht.1, (updateAt_kind _ (fun x => by cases x; rfl) p root).trans h.kind, ?_⟩
+  refine everyNode_updateAt choiceCasesHere hdrLocal_choiceCasesHere setImplicitOut e ?_ (by cases e; rfl) p root h.u hp hg h.cc
+  intro he
+  cases e with | mk d c i o =>
+  change ChoiceCases _ at he
+  change ChoiceCases _
+  simp only [setImplicitOut]
+  rw [choiceCases_mk] at he ⊢
+  refine ⟨he.1, he.2.1, he.2.2.1, ?_⟩
+  intro x hx; simp only [List.mem_singleton] at hx; subst hx; exact choiceCases_implicitIO _ _
+
+theorem dp_find (reg : Registry) (f : Forest) (start : Loc) (ctx : Nat) (name : String)
+    (hf : ForestAll (DP tp) f) (hs : PathOK start.2) :
+    ((find reg f start ctx name).1 ≠ none → ForestAll (DP tp) (find reg f start ctx name).2) ∧
+      ∀ t path, (find reg f start ctx name).1 = some (t, path) → PathOK path :=
+  find_inv2_some (DP tp)
+    (walkParts_inv2 (DP tp) (fun root p e h hp hg hi => dp_setImplicitIn hq root p e h hp hg hi)
+      (fun root p e h hp hg ho => dp_setImplicitOut hq root p e h hp hg ho))
+    reg f start ctx name hf hs
+
+
+omit hq in
+theorem dp_of_equiv (e v : Entry) (heq : DataEquiv e v) (h1 : NoErrors e) (h2 : everyNode (wfqB tp) e = true)
+    (h3 : U e) (h4 : ChoiceCases e) :
+    NoErrors v ∧ everyNode (wfqB tp) v = true ∧ U v ∧ ChoiceCases v ∧ hdr v = hdr e := by
+  refine ⟨noErrors_of_equiv heq h1, ?_⟩
+  cases e with | mk d c i o =>
+  cases v with | mk d' c' i' o' =>
+  obtain ⟨e1, e2, e3, e4, e5, e6, e7, e8, e9, e10⟩ := heq
+  simp only [Entry.dir, Entry.inp, Entry.out, Entry.d] at e1 e2 e3 e4 e5 e6 e7 e8 e9 e10
+  subst e1 e2 e3
+  refine ⟨?_, ?_, ?_, ?_⟩
+  · rw [everyNode_mk] at h2 ⊢
+    refine ⟨?_, h2.2⟩
+    have := h2.1
+    rw [wfqB_iff] at this ⊢
+    refine ⟨this.1, ?_, this.2.2.1, ?_⟩
+    · have hk := this.2.1
+      simp only [kindsWeakHere, Entry.d, e6, e7, e8] at hk ⊢
+      exact hk
+    · intro htp
+      have ht := this.2.2.2 htp
+      simp only [typePresentHere, Entry.d, e6, e9, Bool.or_eq_true, Bool.not_eq_true'] at ht ⊢
+      rcases ht with ht | ht
+      · exact Or.inl ht
+      · exact Or.inr (e10 ht)
+  · rw [U_mk] at h3 ⊢; exact h3
+  · rw [choiceCases_mk] at h4 ⊢
+    rw [e6, e4]; exact h4
+  · simp only [hdr, Entry.d, e5, e6]
+
+theorem dp_replace (root : Entry) (path : Path) (e v : Entry) (h : DP tp root) (hp : PathOK path)
+    (hg : root.getAt path = some e) (heq : DataEquiv e v) :
+    DP tp (root.updateAt path fun _ => v) ∧ (root.updateAt path fun _ => v).getAt path = some v := by
+  obtain ⟨v1, v2, v3, v4, v5⟩ := dp_of_equiv e v heq (everyNode_getAt _ path root e h.ne hg)
+    (everyNode_getAt _ path root e h.wf hg) (U_getAt path root e h.u hg) (everyNode_getAt _ path root e h.cc hg)
+  have hname : v.name = e.name := congrArg Prod.fst v5
+  have hkind : v.d.kind = e.d.kind := congrArg Prod.snd v5
+  refine ⟨⟨?_, ?_, ?_, ?_, ?_⟩, (getAt_updateAt (fun _ => v) e hname path root h.u hp hg).1⟩
+  · exact everyNode_updateAt_own _ ownOnly_noErrorsHere _ (fun _ _ => v1) path root h.ne
+  · exact everyNode_updateAt (wfqB tp) hq.hdr (fun _ => v) e (fun _ => v2) v5 path root h.u hp hg h.wf
+  · exact U_updateAt (fun _ => v) e v3 hname path root h.u hp hg
+  · cases path with
+    | nil =>
+      simp only [Entry.getAt, Option.some.injEq] at hg
+      subst hg
+      exact hkind.trans h.kind
+    | cons s p => cases root with | mk d c i o => cases s <;> exact h.kind
+  · exact everyNode_updateAt choiceCasesHere hdrLocal_choiceCasesHere (fun _ => v) e (fun _ => v4) v5 path root h.u hp hg h.cc
+
+omit hq in
+theorem sublist_names_filter (c : List Entry) (p : Entry → Bool) :
+    ((c.filter p).map (·.name)).Sublist (c.map (·.name)) :=
+  List.Sublist.map _ List.filter_sublist
+
+omit hq in
+theorem dp_dropKids (d : EData) (c i o : List Entry) (p : Entry → Bool) (b1 b2 : Bool)
+    (h1 : NoErrors (.mk d c i o)) (h2 : everyNode (wfqB tp) (.mk d c i o) = true) (h3 : U (.mk d c i o))
+    (h4 : ChoiceCases (.mk d c i o)) :
+    NoErrors (.mk d (c.filter p) (if b1 then [] else i) (if b2 then [] else o)) ∧
+    everyNode (wfqB tp) (.mk d (c.filter p) (if b1 then [] else i) (if b2 then [] else o)) = true ∧
+    U (.mk d (c.filter p) (if b1 then [] else i) (if b2 then [] else o)) ∧
+    ChoiceCases (.mk d (c.filter p) (if b1 then [] else i) (if b2 then [] else o)) := by
+  have hi : ∀ z ∈ (if b1 then [] else i), z ∈ i := by intro z hz; split at hz <;> simp_all
+  have ho : ∀ z ∈ (if b2 then [] else o), z ∈ o := by intro z hz; split at hz <;> simp_all
+  have hil : (if b1 then [] else i).length ≤ i.length := by split <;> simp
+  have hol : (if b2 then [] else o).length ≤ o.length := by split <;> simp
+  refine ⟨?_, ?_, ?_, ?_⟩
+  · rw [noErrors_mk] at h1 ⊢
+    exact ⟨h1.1, fun z hz => h1.2.1 z (List.mem_filter.mp hz).1, fun z hz => h1.2.2.1 z (hi z hz),
+      fun z hz => h1.2.2.2 z (ho z hz)⟩
+  · rw [everyNode_mk] at h2 ⊢
+    refine ⟨?_, fun z hz => h2.2.1 z (List.mem_filter.mp hz).1, fun z hz => h2.2.2.1 z (hi z hz),
+      fun z hz => h2.2.2.2 z (ho z hz)⟩
+    have := h2.1
+    rw [wfqB_iff] at this ⊢
+    refine ⟨⟨this.1.1.sublist (sublist_names_filter c p), by omega, by omega⟩, this.2.1,
+      ⟨fun z hz => this.2.2.1.1 z (List.mem_filter.mp hz).1, fun z hz => this.2.2.1.2.1 z (hi z hz),
+        fun z hz => this.2.2.1.2.2 z (ho z hz)⟩, this.2.2.2⟩
+  · rw [U_mk] at h3 ⊢
+    refine ⟨⟨?_, by omega, by omega⟩, fun z hz => h3.2.1 z (List.mem_filter.mp hz).1, fun z hz => h3.2.2.1 z (hi z hz),
+      fun z hz => h3.2.2.2 z (ho z hz)⟩
+    unfold names1
+    exact h3.1.1.sublist (List.Sublist.filter _ (sublist_names_filter c p))
+  · rw [choiceCases_mk] at h4 ⊢
+    exact ⟨fun hk he z hz => h4.1 hk he z (List.mem_filter.mp hz).1, fun z hz => h4.2.1 z (List.mem_filter.mp hz).1,
+      fun z hz => h4.2.2.1 z (hi z hz), fun z hz => h4.2.2.2 z (ho z hz)⟩
+
+
+omit hq in
+theorem everyNode_and (p q : Entry → Bool) (e : Entry) :
+    everyNode (fun x => p x && q x) e = true ↔ everyNode p e = true ∧ everyNode q e = true := by
+  induction e using entry_ind with
+  | h d c i o hc hi ho =>
+    simp only [everyNode_mk, Bool.and_eq_true]
+    constructor
+    · rintro ⟨⟨a, b⟩, h2, h3, h4⟩
+      exact ⟨⟨a, fun x hx => ((hc x hx).1 (h2 x hx)).1, fun x hx => ((hi x hx).1 (h3 x hx)).1,
+        fun x hx => ((ho x hx).1 (h4 x hx)).1⟩, ⟨b, fun x hx => ((hc x hx).1 (h2 x hx)).2,
+        fun x hx => ((hi x hx).1 (h3 x hx)).2, fun x hx => ((ho x hx).1 (h4 x hx)).2⟩⟩
+    · rintro ⟨⟨a, a2, a3, a4⟩, ⟨b, b2, b3, b4⟩⟩
+      exact ⟨⟨a, b⟩, fun x hx => (hc x hx).2 ⟨a2 x hx, b2 x hx⟩, fun x hx => (hi x hx).2 ⟨a3 x hx, b3 x hx⟩,
+        fun x hx => (ho x hx).2 ⟨a4 x hx, b4 x hx⟩⟩
+
+/-- Drop some `Dir` children and possibly the rpc input / output (what a removal does to the parent). -/
+def dropKids (pr : Entry → Bool) (b1 b2 : Bool) : Entry → Entry
+  | .mk d c i o => .mk d (c.filter pr) (if b1 then [] else i) (if b2 then [] else o)
+
+/-- The four node-wise parts of `DP` as one predicate. -/
+def allq (tp : Bool) (x : Entry) : Bool := ((noErrorsHere x && wfqB tp x) && uHere x) && choiceCasesHere x
+
+omit hq in
+theorem allq_iff (e : Entry) : everyNode (allq tp) e = true ↔
+    NoErrors e ∧ everyNode (wfqB tp) e = true ∧ U e ∧ ChoiceCases e := by
+  unfold allq
+  rw [everyNode_and, everyNode_and, everyNode_and]
+  exact ⟨fun ⟨⟨⟨a, b⟩, c⟩, d⟩ => ⟨a, b, c, d⟩, fun ⟨a, b, c, d⟩ => ⟨⟨⟨a, b⟩, c⟩, d⟩⟩
+
+theorem hdrLocal_allq : ∀ d c i o c' i' o', c.map hdr = c'.map hdr → i.map hdr = i'.map hdr → o.map hdr = o'.map hdr →
+    allq tp (.mk d c i o) = allq tp (.mk d c' i' o') := by
+  intro d c i o c' i' o' hc hi ho
+  unfold allq
+  rw [hq.hdr d c i o c' i' o' hc hi ho, hdrLocal_uHere d c i o c' i' o' hc hi ho,
+    hdrLocal_choiceCasesHere d c i o c' i' o' hc hi ho]
+  rfl
+
+theorem dp_removeAt (root : Entry) (p : Path) (h : DP tp root) : DP tp (removeAt root p) := by
+  have hall : everyNode (allq tp) root = true := (allq_iff root).2 ⟨h.ne, h.wf, h.u, h.cc⟩
+  have gen : ∀ (pr : Entry → Bool) (b1 b2 : Bool) (path : Path), DP tp (root.updateAt path (dropKids pr b1 b2)) := by
+    intro pr b1 b2 path
+    have := everyNode_updateAt_all (allq tp) (hdrLocal_allq hq) (dropKids pr b1 b2) (fun x hx => by
+        cases x with | mk d0 c0 i0 o0 =>
+        obtain ⟨a, b, c, d⟩ := (allq_iff _).1 hx
+        obtain ⟨a', b', c', d'⟩ := dp_dropKids d0 c0 i0 o0 pr b1 b2 a b c d
+        exact (allq_iff _).2 ⟨a', b', c', d'⟩)
+      (fun x => by cases x; rfl) path root hall
+    obtain ⟨a, b, c, d⟩ := (allq_iff _).1 this.1
+    exact ⟨a, b, c, (updateAt_kind _ (fun x => by cases x; rfl) path root).trans h.kind, d⟩
+  unfold removeAt
+  split
+  · rename_i k _
+    have := gen (fun x => x.name != k) false false p.dropLast
+    have heq : dropKids (fun x => x.name != k) false false =
+        (fun pe : Entry => pe.withDir (pe.dir.filter (·.name != k))) := by
+      funext x; cases x; rfl
+    rw [heq] at this; exact this
+  · have := gen (fun _ => true) true false p.dropLast
+    have heq : dropKids (fun _ => true) true false =
+        (fun pe : Entry => match pe with | .mk d c _ o => .mk d c [] o) := by
+      funext x; cases x; simp [dropKids]
+    rw [heq] at this; exact this
+  · have := gen (fun _ => true) false true p.dropLast
+    have heq : dropKids (fun _ => true) false true =
+        (fun pe : Entry => match pe with | .mk d c i _ => .mk d c i []) := by
+      funext x; cases x; simp [dropKids]
+    rw [heq] at this; exact this
+  · exact h
+
+end DPLemmas
+
+section DevStage
+variable {env : Env} {tp : Bool} (hq : LocalOK env (wfqB tp))
+include hq
+
+/-- The deviations of one module keep the tree invariant, unless they return an error. -/
+theorem dp_applyDeviations (reg : Registry) (opts : Opts) (m : Mod) (devs : List (Stmt × List (String × Entry)))
+    (f : Forest) (hf : ForestAll (DP tp) f) (hclean : (applyDeviations reg opts m devs f).2 = []) :
+    ForestAll (DP tp) (applyDeviations reg opts m devs f).1 := by
+  revert hclean
+  unfold applyDeviations
+  refine foldl_inv (fun acc : Forest × List Err => acc.2 = [] → ForestAll (DP tp) acc.1) _ devs (f, []) (fun _ => hf) ?_
+  rintro ⟨f, errs⟩ ⟨dstmt, deviates⟩ _ hP
+  dsimp only at hP ⊢
+  have hfind := fun h => dp_find hq reg f (m.seq, []) m.seq dstmt.arg h pathOK_nil
+  generalize find reg f (m.seq, []) m.seq dstmt.arg = r at hfind
+  obtain ⟨target, f'⟩ := r
+  dsimp only at hfind ⊢
+  split
+  · intro h; simp at h
+  · rename_i t path
+    split
+    · intro h; simp at h
+    · rename_i node0 hn0
+      dsimp only
+      have key := foldl_inv (fun acc : Forest × Entry × Bool × List Err =>
+          (∃ l, acc.2.2.2 = errs ++ l) ∧ (errs = [] → ForestAll (DP tp) acc.1 ∧
+            (acc.2.2.1 = false → ∃ root, acc.1.tree? t = some root ∧ root.getAt path = some acc.2.1)))
+        (fun (acc : Forest × Entry × Bool × List Err) (ds : String × Entry) =>
+          let (f, node, detached, errs) := acc
+          let (node', remove, es) := applyOneDeviate opts m.stmt ds.1 ds.2 (!path.isEmpty) node
+          let es := if remove && detached then es ++ [Err.at_ m.stmt "deviate-already-removed"] else es
+          let f := if detached then f else
+            match f.tree? t with
+            | none => f
+            | some root =>
+              let root := root.updateAt path fun _ => node'
+              f.setTree t (if remove then removeAt root path else root)
+          (f, node', detached || remove, errs ++ es))
+        deviates (f', node0, false, errs) ⟨⟨[], by simp⟩, ?_⟩ ?_
+      · intro hfin
+        obtain ⟨⟨l, hl⟩, hk⟩ := key
+        have he : errs = [] := by
+          have := hl.symm.trans hfin
+          simp only [List.append_eq_nil_iff] at this; exact this.1
+        exact (hk he).1
+      · intro he
+        have hf' := (hfind (hP he)).1 (by simp)
+        refine ⟨hf', fun _ => ?_⟩
+        cases ht : f'.tree? t with
+        | none => simp [ht] at hn0
+        | some root =>
+          simp only [ht, Option.bind_some] at hn0
+          exact ⟨root, rfl, hn0⟩
+      · rintro ⟨f2, node, detached, errs2⟩ ds _ ⟨⟨l, hl⟩, hk⟩
+        dsimp only at hl hk ⊢
+        refine ⟨⟨l ++ _, by rw [hl, List.append_assoc]⟩, ?_⟩
+        intro he
+        obtain ⟨hf2, hnode⟩ := hk he
+        have hpath : PathOK path := (hfind (hP he)).2 t path rfl
+        have heq := applyOneDeviate_equiv opts m.stmt ds.1 ds.2 (!path.isEmpty) node
+        cases detached with
+        | true =>
+          simp only [if_true, Bool.true_or]
+          exact ⟨hf2, fun h => absurd h (by simp)⟩
+        | false =>
+          simp only [Bool.false_eq_true, if_false, Bool.false_or]
+          obtain ⟨root, hroot, hg⟩ := hnode rfl
+          simp only [hroot]
+          have hrep := dp_replace hq root path node _ (forestAll_tree? _ _ _ hf2 hroot) hpath hg heq
+          refine ⟨?_, ?_⟩
+          · apply forestAll_setTree _ _ _ hf2
+            split
+            · exact dp_removeAt hq _ _ hrep.1
+            · exact hrep.1
+          · intro hrem
+            simp only [hrem, Bool.false_eq_true, if_false]
+            refine ⟨_, ?_, hrep.2⟩
+            rw [tree?_setTree]; simp [hroot]
+
+theorem dp_devStage (reg : Registry) (opts : Opts) (plug : Plug) (hqe : env = envOf reg opts plug)
+    (f0 : Forest) (h : ForestAll (DP tp) f0) (hclean : (devStage reg opts plug f0).2.1 = []) :
+    ForestAll (DP tp) (devStage reg opts plug f0).1 := by
+  revert hclean
+  unfold devStage
+  refine foldl_inv (fun acc : Forest × List Err × List String => acc.2.1 = [] → ForestAll (DP tp) acc.1) _ _ _
+    (fun _ => h) ?_
+  rintro ⟨f, errs, done⟩ m _ hP
+  dsimp only at hP ⊢
+  split
+  · exact hP
+  · dsimp only
+    intro he
+    simp only [List.append_eq_nil_iff] at he
+    exact dp_applyDeviations hq _ _ _ _ _ (hP he.1) he.2
+
+end DevStage
+
+/-! ### the result of a clean `Process` -/
+
+theorem process_clean_dp (reg : Registry) (opts : Opts) (plug : Plug) (tp : Bool)
+    (ht : tp = true → TypeResTotal plug.tres) (h : (processAll reg opts plug).errors = []) :
+    ForestAll (DP tp) (processAll reg opts plug).forest := by
+  have hq : LocalOK (envOf reg opts plug) (wfqB tp) := localOK_wfqB _ tp ht
+  obtain ⟨_, _, _, h4, h5⟩ := processAll_clean reg opts plug h
+  rw [h5]
+  refine dp_devStage hq reg opts plug rfl _ ?_ h4
+  intro t ht'
+  obtain ⟨a, b, c, d⟩ := preDev_clean reg opts plug hq (wfqB_fixChoice tp) h t ht'
+  exact ⟨a, b, c, d, preDev_choiceCases reg opts plug h t ht'⟩
+
+theorem everyNode_imp (p q : Entry → Bool) (hpq : ∀ x, p x = true → q x = true) (e : Entry)
+    (h : everyNode p e = true) : everyNode q e = true := by
+  induction e using entry_ind with
+  | h d c i o hc hi ho =>
+    rw [everyNode_mk] at h ⊢
+    exact ⟨hpq _ h.1, fun x hx => hc x hx (h.2.1 x hx), fun x hx => hi x hx (h.2.2.1 x hx),
+      fun x hx => ho x hx (h.2.2.2 x hx)⟩
+
+theorem wfqB_keysUnique (tp : Bool) (x : Entry) (h : wfqB tp x = true) : keysUniqueHere x = true := by
+  simp only [wfqB, wfq, Bool.and_eq_true] at h; exact h.1.1.1
+
+theorem wfqB_typePresent (x : Entry) (h : wfqB true x = true) : typePresentHere x = true := by
+  simp only [wfqB, Bool.and_eq_true, Bool.not_true, Bool.false_or] at h; exact h.2
+
+/-- From the entry-layer predicate to the specification's kind consistency: no deviate entry is
+in the tree (the root is not one, and no node has one as a child), no error is left, and the
+choices have been fixed. -/
+theorem kindsConsistent_of (tp : Bool) (e : Entry) (hk : e.d.kind ≠ .deviate) (hne : NoErrors e)
+    (hw : everyNode (wfqB tp) e = true) (hc : ChoiceCases e) : KindsConsistent e := by
+  unfold KindsConsistent
+  induction e using entry_ind with
+  | h d c i o ihc ihi iho =>
+    rw [noErrors_mk] at hne
+    rw [everyNode_mk] at hw ⊢
+    rw [choiceCases_mk] at hc
+    have hw0 := hw.1
+    rw [wfqB_iff] at hw0
+    obtain ⟨_, kw, ⟨n1, n2, n3⟩, _⟩ := hw0
+    refine ⟨?_, fun x hx => ihc x hx (n1 x hx) (hne.2.1 x hx) (hw.2.1 x hx) (hc.2.1 x hx),
+      fun x hx => ihi x hx (n2 x hx) (hne.2.2.1 x hx) (hw.2.2.1 x hx) (hc.2.2.1 x hx),
+      fun x hx => iho x hx (n3 x hx) (hne.2.2.2 x hx) (hw.2.2.2 x hx) (hc.2.2.2 x hx)⟩
+    simp only [Entry.d] at hk
+    simp only [kindsWeakHere, Entry.d, Bool.and_eq_true, Bool.or_eq_true, Bool.not_eq_true', beq_iff_eq] at kw
+    simp only [kindsConsistentHere, Entry.d, Entry.dir, Bool.and_eq_true, Bool.or_eq_true, Bool.not_eq_true',
+      beq_iff_eq, List.all_eq_true]
+    refine ⟨⟨kw.1, ?_⟩, ?_⟩
+    · rcases kw.2 with ((h | h) | h) | h
+      · exact Or.inl (Or.inl h)
+      · exact Or.inl (Or.inr h)
+      · exact Or.inr h
+      · exact absurd h hk
+    · by_cases hch : d.kind = .choice
+      · exact Or.inr (hc.1 hch hne.1)
+      · left; simpa using hch
+
+/-- The value-level half of C04. -/
+theorem process_clean_wf (reg : Registry) (opts : Opts) (plug : Plug)
+    (h : (processAll reg opts plug).errors = []) :
+    ∀ t ∈ (processAll reg opts plug).forest.trees, WFTree t.2 ∧ NoErrors t.2 := by
+  intro t ht
+  have := process_clean_dp reg opts plug false (fun h => absurd h (by simp)) h t ht
+  refine ⟨⟨everyNode_imp _ _ (wfqB_keysUnique false) _ this.wf, ?_⟩, this.ne⟩
+  exact kindsConsistent_of false t.2 (by rw [this.kind]; decide) this.ne this.wf this.cc
+
+theorem process_clean_types (reg : Registry) (opts : Opts) (plug : Plug) (htot : TypeResTotal plug.tres)
+    (h : (processAll reg opts plug).errors = []) :
+    ∀ t ∈ (processAll reg opts plug).forest.trees, TypesPresent t.2 := by
+  intro t ht
+  have := process_clean_dp reg opts plug true (fun _ => htot) h t ht
+  exact everyNode_imp _ _ wfqB_typePresent _ this.wf
 
 end Goyang.Lemmas.Tree
